@@ -307,6 +307,7 @@ func c14Build(cfg [][]string) c14Query {
 	where := ""
 	var wplain, wana string
 	var wfield []string
+	var wextra [][]string // further analytic conjuncts: <cmp> <field…>
 	nf := 0
 	for _, l := range cfg {
 		switch l[0] {
@@ -324,14 +325,16 @@ func c14Build(cfg [][]string) c14Query {
 			wplain, wana = l[1], l[2]
 		case "wfield":
 			wfield = l[1:]
+		case "wfield2":
+			wextra = append(wextra, l[1:])
 		}
 	}
 	var conj []string
 	if wplain != "" && wplain != "-" {
 		conj = append(conj, c14PredSQL(wplain))
 	}
-	if wana != "" && wana != "-" {
-		e, _ := c14FieldSQL(wfield, 99)
+	anaSQL := func(wana string, wfield []string, n int) string {
+		e, _ := c14FieldSQL(wfield, n)
 		if wana != "bool" {
 			p := strings.SplitN(wana, ":", 2)
 			op := ">"
@@ -340,12 +343,19 @@ func c14Build(cfg [][]string) c14Query {
 			}
 			e += " " + op + " " + c14Num(c14FloatOf(p[1]))
 		}
-		conj = append(conj, e)
+		return e
+	}
+	if wana != "" && wana != "-" {
+		conj = append(conj, anaSQL(wana, wfield, 99))
+	}
+	for i, x := range wextra {
+		_ = i
+		conj = append(conj, anaSQL(x[0], x[1:], 99))
 	}
 	if len(conj) == 1 {
 		where = " WHERE id < 0 OR " + conj[0]
-	} else if len(conj) == 2 {
-		where = " WHERE id < 0 OR (" + conj[0] + " AND " + conj[1] + ")"
+	} else if len(conj) >= 2 {
+		where = " WHERE id < 0 OR (" + strings.Join(conj, " AND ") + ")"
 	}
 	from := " FROM stream"
 	if c14Style == "qual" || c14Style == "qualw" {
@@ -710,6 +720,26 @@ func (c14) Gen(rng *rand.Rand, tier string, idx int) Case {
 		}
 		c.Cfg = append(c.Cfg, []string{"where", plain, cmp}, append([]string{"wfield"}, f...))
 		c.Stat = append(c.Stat, "where-analytic")
+		if rng.Intn(3) == 0 {
+			// the same call text a second time with another OVER clause (other PARTITION BY / no WHEN): two
+			// different state machines, each with its own partitions
+			g := append([]string(nil), f...)
+			g[1] = map[string]string{"-": "0", "0": "0,1", "1": "-", "0,1": "1"}[g[1]]
+			if g[1] == "" {
+				g[1] = "-"
+			}
+			if rng.Intn(2) == 0 {
+				g[2] = "-"
+			}
+			if g[1] != f[1] || g[2] != f[2] {
+				cmp2 := cmp
+				if cmp != "bool" && rng.Intn(2) == 0 {
+					cmp2 = "gt:" + c14Fbits([]float64{0, 1, 2}[rng.Intn(3)])
+				}
+				c.Cfg = append(c.Cfg, append([]string{"wfield2", cmp2}, g...))
+				c.Stat = append(c.Stat, "where-two-analytic-calls")
+			}
+		}
 	}
 	// spelling of the columns: nested partition keys (`dev.k1`) / a stream alias with qualified value columns (`s.v`)
 	hasFanOut := false
